@@ -117,7 +117,9 @@ func checkMain(args []string) {
 			}
 			k := ks[rng.Intn(len(ks))]
 			r := ts[t].Rels[k]
-			switch rng.Intn(5) {
+			switch rng.Intn(6) {
+			case 5:
+				r.FT = "" // declared by hand without FromType
 			case 0:
 				r.TT = "zz" // dangling
 			case 1:
